@@ -80,6 +80,19 @@ CLAIMED = {
             'closed forms and 2000^2 grid sampling; kernels are the built .so '
             '(rebuilt from .c when stale).',
             'DESIGN.md section 5, C03'),
+    'C05': ('exploration',
+            'Hypothesis property test: to_image / cutout / multiply / '
+            'get_values / overlap slices vs a dict-of-pixels placement model '
+            'evaluated by loops; input fingerprints before/after',
+            'Random search over box position (inside, straddling every '
+            'edge/corner, outside on each side, empty, larger than the image) '
+            'x image shapes incl. 0-sized x int/float/Quantity data x '
+            'float64/float32/int weights x fill values x copy flag x optional '
+            'data mask; every output element compared exactly (one float32 ulp '
+            'where a float32 operand leaves the promotion path open).',
+            'Placement model in vf/props/c05.py (loops over a dict of pixels); '
+            'numpy scalar arithmetic for the products.',
+            'DESIGN.md section 5, C05'),
 }
 
 PENDING_REASON = ('check designed (DESIGN.md section 5) but not yet built and '
